@@ -36,7 +36,9 @@ RULE = (
 ASSUMPTIONS = [
     "NaN/inf excluded; dates are not in the statement's list of data values",
     "excluded by construction and counted (open known findings): maps with "
-    "the key NULL, patterns that contain '//', end in '/' or are empty",
+    "the key NULL, patterns that contain '//', end in '/' or are empty, "
+    "values holding both -0.0 and a pattern (cross-kind order by text is not "
+    "consistent there; root cause of the open C12 finding)",
 ]
 
 INT_RE = re.compile(r"-?[0-9]+\Z")
@@ -74,6 +76,18 @@ def known_class(v):
     for x in walk(v):
         if mv.kind(x) == "pattern" and bad_pattern(x.text):
             return "pattern-contains-delimiter"
+    # the order across kinds goes by rendered text: "-0.0" < "//p//" < "0.0"
+    # although -0.0 == 0.0, so lists holding a negative zero, a pattern and a
+    # zero have no consistent order (same root cause as the open C12 finding
+    # on dates next to numbers): such values are not generated here
+    negzero = pat = False
+    for x in walk(v):
+        if mv.kind(x) == "decimal" and x == 0 and str(x) == "-0.0":
+            negzero = True
+        if mv.kind(x) == "pattern":
+            pat = True
+    if negzero and pat:
+        return "negative-zero-next-to-pattern"
     return None
 
 
